@@ -277,6 +277,27 @@ def history(ctx: Any) -> List[Ob]:
             ok_k = all(s.kind == 'return' and norm(s.ast.value) == 'False' for s, lab in t.succ if lab is True)
     obs.append(ob(R, h, 'if now - than > _DUPLICATE_QUESTION_INTERVAL: return False', 'a question asked more than 999 ms ago does not suppress', ok_w))
     obs.append(ob(R, h, 'if previous_known_answers - known_answers: return False', 'a previous question whose known answers contained something we do not know does not suppress', ok_k))
+    # the whole decision of `suppresses` as a table: suppressed iff the question was recorded, not more than 999 ms ago, with
+    # known answers that are all among ours
+    hme = h.params[0]
+    lookups_h = {norm(c) for c in ast.walk(h.node) if isinstance(c, ast.Call) and isinstance(c.func, ast.Attribute) and c.func.attr == 'get' and self_attr(c.func.value, hme) == '_history'} | {norm(c) for c in ast.walk(h.node) if isinstance(c, ast.Subscript) and self_attr(c.value, hme) == '_history'}
+    if not lookups_h:
+        raise AnalysisError('anchor vanished: lookup of the question in the history')
+    for recorded in (True, False):
+        for age in (0.0, 999.0, 1000.0):
+            for prev_known, ours in ((frozenset(), frozenset()), (frozenset({'r1'}), frozenset({'r1', 'r2'})), (frozenset({'r1', 'r3'}), frozenset({'r1'}))):
+                atoms_h: Dict[str, Any] = {x: ((5000.0, prev_known) if recorded else None) for x in lookups_h}
+                atoms_h[h.params[2]] = 5000.0 + age
+                atoms_h[h.params[3]] = ours
+                oc_h, und_h = traces(ctx, h, atoms_h, lambda n, e: [])
+                rets_h = {x[1] for t in oc_h for x in t if isinstance(x, tuple) and x[0] == 'ret'}
+                want_h = recorded and age <= 999.0 and prev_known <= ours
+                obs.append(ob(R, h, f'question {"recorded" if recorded else "not recorded"}, {age:g} ms ago, its known answers {sorted(prev_known)} against ours {sorted(ours)}', f'suppresses() is {want_h}', rets_h == {want_h} and not und_h, f'returns {sorted(map(repr, rets_h))}; undecided {und_h}'))
+    rec_f = prog.func('zeroconf._history.QuestionHistory.add_question_at_time')
+    rme = rec_f.params[0]
+    st_h = [st for st in walk_local_ordered(rec_f.node) if isinstance(st, ast.Assign) and isinstance(st.targets[0], ast.Subscript) and self_attr(st.targets[0].value, rme) == '_history']
+    ok_rec = len(st_h) == 1 and norm(st_h[0].targets[0].slice) == rec_f.params[1] and isinstance(st_h[0].value, ast.Tuple) and [norm(x) for x in st_h[0].value.elts] == [rec_f.params[2], rec_f.params[3]]
+    obs.append(ob(R, rec_f, st_h[0] if st_h else 'self._history[question] = (now, known_answers)', 'recording a question stores its time and its known answers under the question', ok_rec))
     # expiry of the history removes exactly the entries older than the window: each is tested on its own time (dict order is
     # the order of FIRST insertion -- re-recording a question does not move it -- so no shortcut through `the last entry`)
     ex = prog.func('zeroconf._history.QuestionHistory.async_expire')
